@@ -56,6 +56,20 @@ Section BrokerJournal.
     end.
   Definition brun (ops : list bop) (s : bstate) : bstate := fold_left bapply ops s.
   Definition binit (g : bool) (t0 interval : Z) : bstate := {| b_m := minit g; b_w := new_writer t0 interval |}.
+
+  (* the same with a journal sink that may fail (Model/Journal.v, fwriter) *)
+  Record bfstate := { bf_m : mstate; bf_w : fwriter hash }.
+  Definition bfapply (s : bfstate) (o : bop) : bfstate :=
+    match o with
+    | At now o =>
+        {| bf_m := apply_op (bf_m s) o;
+           bf_w := match recorded o with Some ad => fadd bytes hash mask heqb now ad (bf_w s) | None => bf_w s end |}
+    | FlushAt now => {| bf_m := bf_m s; bf_w := fflush hash now (bf_w s) |}
+    end.
+  Definition bfrun (ops : list bop) (s : bfstate) : bfstate := fold_left bfapply ops s.
+  Definition bfinit (g : bool) (t0 interval : Z) (plan : list wres) : bfstate :=
+    {| bf_m := minit g; bf_w := fnew t0 interval plan |}.
 End BrokerJournal.
 
 Arguments b_m {hash}. Arguments b_w {hash}. Arguments Build_bstate {hash}.
+Arguments bf_m {hash}. Arguments bf_w {hash}. Arguments Build_bfstate {hash}.
